@@ -412,6 +412,30 @@ func judgeC10(c c10Case) (string, string) {
 	if res.unmapCB != "" {
 		return "callback-without-map", fmt.Sprintf("%q reported although the map function was not consulted for it", res.unmapCB)
 	}
+	// directory-skipping shortcuts never change the result - what is reported, and as what: the same configuration
+	// with one more pattern that matches nothing but switches the shortcuts off reports the same entries with the
+	// same stats (link names in particular: whether a hidden name of an inode counts as "seen" must not depend on
+	// whether its directory was walked or skipped)
+	if c.Disk && c.MapOp == "" && len(c.Follow) == 0 && !c.FollowEmpty && (len(c.Include) > 0 || len(c.Exclude) > 0) {
+		c2 := c
+		if len(c.Exclude) > 0 {
+			c2.Exclude = append(append([]string{}, c.Exclude...), "!nothing*/here?")
+		}
+		if len(c.Include) > 0 {
+			c2.Include = append(append([]string{}, c.Include...), "nothing*/here?")
+		}
+		res2, err := walkFiltered(c2, under)
+		if err != nil {
+			return "walk-failed", "with a no-op pattern added: " + err.Error()
+		}
+		if strings.Join(res.paths, " ") == strings.Join(res2.paths, " ") {
+			for _, p := range res.paths {
+				if d := statDiff(res2.stats[p], res.stats[p]); d != "" {
+					return "shortcut-changes-stat", fmt.Sprintf("%q is reported differently once a pattern that matches nothing (%q / %q) switches directory skipping off: %s", p, c2.Include, c2.Exclude, d)
+				}
+			}
+		}
+	}
 	if c.MapOp == "rewrite" {
 		if st := res.stats[c.MapPath]; st != nil && (st.Uid != 4242 || st.Mode&0777 != 0751) {
 			return "map-rewrite-lost", fmt.Sprintf("%q reported with uid=%d mode=%o, the map function set uid=4242 mode=0751", c.MapPath, st.Uid, st.Mode&0777)
@@ -637,6 +661,51 @@ func runC10(r *evid.Run) {
 				for _, n := range t {
 					for _, op := range []string{"exclude", "skipdir", "rewrite"} {
 						cases = append(cases, c10Case{Tree: t, Include: inc, Exclude: exc, MapOp: op, MapPath: n.Path})
+					}
+				}
+			}
+		}
+	}
+	// hard-link groups spread over kept and hidden names, on disk (the walker's inode table): every partition of the four
+	// files of the first tree into groups
+	for _, lab := range fsmodel.Partitions(4) {
+		t := trees[0].Clone()
+		fi := 0
+		for i := range t {
+			if t[i].Kind != fsmodel.File {
+				continue
+			}
+			if lab[fi] > 0 {
+				t[i].HL, t[i].Data, t[i].Mtime = lab[fi], fsmodel.Content(50+lab[fi], 3), fsmodel.T0+int64(50+lab[fi])
+			}
+			fi++
+		}
+		t = fixGroups(t)
+		for _, l := range short {
+			if l == nil {
+				continue
+			}
+			cases = append(cases, c10Case{Tree: t, Include: l, Disk: true}, c10Case{Tree: t, Exclude: l, Disk: true})
+		}
+	}
+	// ... and over the on-disk walker (lazy stats, its own translation of errors into SkipDir): every single-path
+	// assignment with one pattern list
+	for ti, t := range trees {
+		if ti >= 3 {
+			break
+		}
+		for _, l := range short {
+			for _, side := range []int{0, 1} {
+				inc, exc := l, []string(nil)
+				if side == 1 {
+					inc, exc = nil, l
+					if l == nil {
+						continue
+					}
+				}
+				for _, n := range t {
+					for _, op := range []string{"exclude", "skipdir", "rewrite"} {
+						cases = append(cases, c10Case{Tree: t, Include: inc, Exclude: exc, MapOp: op, MapPath: n.Path, Disk: true})
 					}
 				}
 			}
